@@ -2,6 +2,7 @@
 """Regenerates /verif/MANIFEST.json from the table below (kept in sync with checker/internal/props)."""
 import json, re, subprocess, os
 
+FIX_COMMITS = ["7de88560c5", "5379f6c8d1", "4b4b809cc2", "a6f4203039", "d8a222be03"]
 CLAIMED = {
  # id: (design_ref, claim text, not covered / trusted base, technique)
  "C06": ("5/C06",
@@ -38,6 +39,12 @@ CLAIMED["C05"] = ("5/C05",
    "Static rules over x/poolmanager (and the gamm / concentrated-liquidity swap entries) decide: execution and estimate hops apply the same-direction taker-fee formula to the same denom pair, use the pool's spread factor and chain hop outputs; rule L: every swap entry taking a caller limit returns only values compared with that limit on a failing branch or produced by a callee that received it, inner hops get the neutral limit and only the last hop the caller's; split routes sum legs and compare the sum; the taker-fee step's result depends only on quantities the estimate has (one recorded known finding: reduced-fee whitelist).",
    "Not covered: value-level equality of routed result and composition across pool types, state-untouched for cosmwasm pools, routes visiting a pool twice. Trusted: PoolModuleI implementations outside gamm/CL, SDK tx atomicity, go/ssa.",
    "SSA origin-term rules incl. limit-on-returned-value (L), phi-edge case rules, sibling agreement")
+
+CLAIMED["C19"] = ("5/C19",
+   "Syntax-tree analyses over the type-checked workspace decide: (X-det) every map range in state-machine code has an order-independent body or is collect-then-sort, and no wall-clock time (except feeding telemetry/logging), randomness, environment read, goroutine or select occurs there, each exception being one named construct with a reason; (X-gen) every field of each of the 18 module GenesisStates is consumed by InitGenesis and produced by ExportGenesis, and InitGenesis does not overwrite imported fields except nil/zero-defaulting; (X-mem) every write to in-memory keeper state is wiring, a rebuild from the store, or a self-validating cache. 4 recorded known findings (poolmanager caches, mint genesis overwrite).",
+   "Not covered: bit-identical app hash, losslessness of exported values beyond field coverage, nondeterminism inside dependencies. Trusted: go/types; scoping by package class.",
+   "AST/type-based determinism lint, genesis field-coverage analysis, keeper-field write scan with call-graph classification")
+FIX_COMMITS.append("59282cb358")
 
 NOT_YET = "check not built yet in this revision (static rule set under construction; see DESIGN.md section 5)"
 
@@ -76,6 +83,5 @@ def main():
     print("claimed", len(checks), "not_applicable", len(na))
 
 NA = {}
-FIX_COMMITS = ["7de88560c5", "5379f6c8d1", "4b4b809cc2", "a6f4203039", "d8a222be03"]
 if __name__ == '__main__':
     main()
